@@ -206,12 +206,22 @@ func (m *runMonitor) watch(a *workerArgs, out *workerOut, finish func()) {
 
 var monitor runMonitor
 
+// enumDeadline truncates long per-run enumerations (zero = no limit, e.g. replay).
+var enumDeadline time.Time
+
+func outOfTime() bool { return !enumDeadline.IsZero() && time.Now().After(enumDeadline) }
+
 func workerBatch(t *testing.T, a *workerArgs, out *workerOut, start time.Time) {
 	known := loadKnown()
 	sigs := map[uint64]bool{}
 	scheds := map[uint64]bool{}
 	seenViol := map[string]bool{}
 	deadline := start.Add(time.Duration(a.Seconds) * time.Second)
+	// enumerations inside one run (crash images, header damage) stop shortly
+	// after the batch budget is used up; the run counts with what it evaluated
+	if a.MaxRuns == 0 {
+		enumDeadline = deadline.Add(5 * time.Second)
+	}
 	for i := 0; ; i++ {
 		if a.MaxRuns > 0 && i >= a.MaxRuns {
 			break
